@@ -65,7 +65,7 @@ class Contract:
 
 class LoopSpec:
     def __init__(self, qual, ordinal, invariants=(), decreases=None, modifies=None, index=None, fingerprint=None,
-                 unroll=None):
+                 unroll=None, var_kinds=None, may_diverge=False):
         self.qual = qual
         self.ordinal = ordinal
         self.invariants = list(invariants)
@@ -74,6 +74,8 @@ class LoopSpec:
         self.index = index  # name under which the iteration index of a for-loop is visible in invariants
         self.fingerprint = fingerprint  # substring that must occur in ast.unparse(loop header)
         self.unroll = unroll
+        self.var_kinds = var_kinds or {}  # locals that change kind in the loop: name -> union kind
+        self.may_diverge = may_diverge
 
 
 class SpecFn:
